@@ -191,9 +191,9 @@ def finish(pid, level, tier, res, rule, assumptions, replay_fn, t0, *, exhaustiv
         "rule": rule,
         "samples": list(res.samples.values())[:MAX_SAMPLES],
         "exhaustive": bool(exhaustive),
-        "feature_histogram": dict(res.features.most_common(60)),
+        "feature_histogram": dict(res.features.most_common(200)),
         "rejections": dict(res.rejections.most_common(40)),
-        "notes": dict(res.notes.most_common(60)),
+        "notes": dict(res.notes.most_common(200)),
         "known_finding_hits": dict(known_hits),
         "failure_signatures": {s: res.fail_counts[s] for s in sorted(res.failures)},
         "regression_inputs_replayed": nreg,
